@@ -1,3 +1,4 @@
+import Evl.Model.FileSink
 import Evl.Model.Sinks
 import Evl.Generated.LockSites
 import Evl.Generated.SinkFacts
@@ -121,5 +122,12 @@ theorem channel_single_select : Evl.Generated.channelSelects = 1 ∧ Evl.Generat
 example : writerProcess false false 0 [(1, [7, 8])] .ok = .wrote [7, 8] := by decide
 example : writerProcess false false 5 [(1, [7, 8])] .ok = .errNotMarshaled := by decide
 example : writerProcess false false 0 [(1, [7, 8])] (.short 1) = .errWrite := by decide
+
+
+/-- FileSink on a regular file: an event that has no bytes for the sink's format is refused ("event
+was not marshaled") before the file is even looked at — no file is created, opened, rotated or
+written, no counter moves -/
+theorem filesink_refuses_unformatted (c : Evl.FileSink.Cfg) (s : Evl.FileSink.St) :
+    Evl.FileSink.step c s .noFormat = (s, .errFormat) := rfl
 
 end Evl.C13
